@@ -1003,4 +1003,5 @@ func main() {
 	}
 
 	wireCases(o)
+	wireXCases(o) // phase 4: kind `bsw`, several ReadFrom/Fix rounds into one destination (wirex.go)
 }
